@@ -319,10 +319,12 @@ Lemma non_grpc_untouched decomp comp v : forall ops p,
 Proof.
   induction ops as [|o ops IH]; intros p Hp Hall; [reflexivity|].
   cbn [forallb] in Hall. apply andb_true_iff in Hall. destruct Hall as [Ho Hall].
-  cbn [run_ops map]. destruct o as [d hs es|d b es]; cbn [op_step header_is_grpc] in *.
-  - rewrite Hp. apply negb_true_iff in Ho. rewrite Ho, Hp.
-    now rewrite (IH p Hp Hall).
-  - rewrite Hp. now rewrite (IH p Hp Hall).
+  cbn [run_ops map]. unfold op_step.
+  destruct o as [d hs es|d b es]; cbn [op_dir adapter_step header_is_grpc untouched] in *.
+  - destruct (has_proc d p).
+    + rewrite Hp. apply negb_true_iff in Ho. rewrite Ho, Hp. now rewrite (IH p Hp Hall).
+    + now rewrite (IH p Hp Hall).
+  - destruct (has_proc d p); [rewrite Hp|]; now rewrite (IH p Hp Hall).
 Qed.
 
 (* ---------------- fuel: the loop never runs out, whatever the bytes ---------------- *)
@@ -469,7 +471,8 @@ Variable v : variant.
 
 Lemma op_step_total p o : op_step decomp comp v p o <> None.
 Proof.
-  destruct o as [d hs es|d b es]; cbn [op_step].
+  unfold op_step. destruct (has_proc (op_dir o) p); [|destruct o; discriminate].
+  destruct o as [d hs es|d b es]; cbn [adapter_step].
   - destruct (enabled (if enabled p then p else if is_grpc hs then set_enabled p else p)); [|discriminate].
     destruct (select_enc _ hs); discriminate.
   - destruct (enabled p); [|discriminate].
@@ -548,9 +551,9 @@ Qed.
 (* Non-interference: two sessions that agree on stream [i]'s own HEADERS and
    DATA show stream [i] the same calls, whatever the other streams do and
    however the frames are interleaved. *)
-Theorem streams_independent sops sops' outs outs' i :
-  run_session decomp comp v sess0 sops = Some outs ->
-  run_session decomp comp v sess0 sops' = Some outs' ->
+Theorem streams_independent hc hs sops sops' outs outs' i :
+  run_session decomp comp v (sess_cfg hc hs) sops = Some outs ->
+  run_session decomp comp v (sess_cfg hc hs) sops' = Some outs' ->
   ops_of i sops = ops_of i sops' -> outs_of i outs = outs_of i outs'.
 Proof.
   intros H1 H2 Heq.
